@@ -89,6 +89,21 @@ POOL_TXT = [
 ]
 
 PATHS = ("string", "file", "lookup", "moddir")
+# the same documents behind a preprocessor that makes the text longer (its first line "~" becomes a 60-character line):
+# positions and exception.source refer to the processed text
+PRE_PATHS = ("string:pre", "lookup:pre")
+PRE_RAW, PRE_LINE = "~", "~" * 60
+
+
+def _grow(t):
+    return PRE_LINE + t[len(PRE_RAW):] if t.startswith(PRE_RAW + "\n") else t
+
+
+def _pre_shift(exp):
+    e = dict(exp, L=exp["L"] + 1, lineno=exp["lineno"] + 1)
+    if exp.get("alt"):
+        e["alt"] = [exp["alt"][0] + 1, exp["alt"][1]]
+    return e
 # nested routes: the template with the planted fault is compiled lazily through a TemplateLookup while a healthy
 # template is being rendered, so the traceback passes through the frames of the calling template
 NEST_CALLERS = {
@@ -161,6 +176,13 @@ def fault_table(seed):
     add("expr_nextline_ml2", "py", A + "${\n (" + V + ",\n " + B + W + " +* 1)\n}", "${\n (" + V + ",\n " + W + ")\n}")
     add("expr_ml2_goodfilter", "py", A + "${(" + V + ",\n " + B + W + " +* 1) | h}", "${(" + V + ",\n " + W + ") | h}")
     add("expr_str_ml", "py", A + "${('''p\nq''',\n " + B + W + " +* 1)}", "${('''p\nq''',\n " + W + ")}")
+    # ---- an expression that is exactly one Python keyword
+    for kw_ in ("class", "import", "while", "del", "not", "in", "else", "pass"):
+        add("expr_keyword_" + kw_, "py", A + "${" + B + kw_ + "}", "${" + V + "}", family="expression-is-a-keyword", variant=kw_ != "class", spaceb=kw_ == "class")
+    add("expr_keyword_spaced", "py", A + "${ " + B + "import }", "${ " + V + " }", family="expression-is-a-keyword", variant=True, spaceb=False)
+    add("expr_keyword_filtered", "py", A + "${" + B + "not | h}", "${" + V + " | h}", family="expression-is-a-keyword", variant=True, spaceb=False)
+    add("attr_keyword", "py", A + '<%include file="${' + B + 'while}"/>', '<%include file="${' + V + '}"/>', family="expression-is-a-keyword", variant=True, spaceb=False)
+    add("call_keyword", "py", A + '<%call expr="' + B + 'del"></%call>', '<%call expr="' + V + '()"></%call>', family="expression-is-a-keyword", variant=True, spaceb=False)
     # ---- filter lists
     add("filter", "py", A + "${" + V + " | " + B + "h, +* u}", "${" + V + " | h, u}")
     add("filter_nospace", "py", A + "${" + V + "|" + B + "h +* u}", "${" + V + "|h, u}")
@@ -271,6 +293,18 @@ def fault_table(seed):
     add("nscall_args", "py", A + '<%ns:foo args="' + B + '+*b"></%ns:foo>', '<%ns:foo args="b"></%ns:foo>')
     add("include_file", "py", A + '<%include file="${' + B + '1 +* 2}"/>', '<%include file="${1 + 2}"/>')
     add("include_args", "py", A + '<%include file="q" args="' + B + 'a +* 2"/>', '<%include file="q" args="a + 2"/>')
+    # signatures holding a '#' inside a string literal and / or ending in an incomplete expression (the error is found at
+    # the end of the signature); also a multi-line signature whose LAST line is the incomplete one
+    for tname, op, close, fix in (
+        ("page", '<%page args="', '"/>', None), ("block", '<%block name="bb" args="', '"></%block>', None),
+        ("call", '<%call expr="f()" args="', '"></%call>', None), ("def", '<%def name="f(', ')"></%def>', None),
+    ):
+        for iname, bad, good in (("binop", "w=10 *", "w=10"), ("ifexp", "w=1 if", "w=1"), ("not", "w=not", "w=1"), ("bracket", "w=[1,", "w=[1]")):
+            for hname, hsh in (("hash", "c='#fff', "), ("plain", "c='fff', ")):
+                add("sig_%s_incomplete_%s_%s" % (tname, iname, hname), "py", A + op + hsh + B + bad + close, op + hsh + good + close,
+                    family="signature-ending-in-an-incomplete-expression", variant=True, spaceb=(tname, iname, hname) == ("page", "binop", "hash"))
+        add("sig_%s_incomplete_ml_hash" % tname, "py", A + op + "c='#fff',\n  " + B + "w=10 *" + close, op + "c='#fff',\n  w=10" + close,
+            family="signature-ending-in-an-incomplete-expression", variant=True, spaceb=False)
     add("def_filter", "py", A + '<%def name="f()" filter="' + B + 'h +* u"></%def>', '<%def name="f()" filter="h, u"></%def>')
     add("block_filter", "py", A + '<%block filter="' + B + 'h +* u"></%block>', '<%block filter="h, u"></%block>')
     add("text_filter", "py", A + '<%text filter="' + B + 'h +* u">t</%text>', '<%text filter="h, u">t</%text>')
@@ -684,6 +718,10 @@ def execute(text, path, fname, want_html, st, light=False):
     try:
         if path == "string":
             Template(text)
+        elif path == "string:pre":
+            Template(PRE_RAW + "\n" + text, preprocessor=_grow)
+        elif path == "lookup:pre":
+            TemplateLookup(directories=[e_.dir], preprocessor=[_grow]).get_template("/" + os.path.basename(fname))
         elif path == "file":
             Template(filename=fname)
         elif path == "lookup":
@@ -843,6 +881,13 @@ def check_doc(text, exp, paths, html_paths, st, kind, outcome_extra=(), light=Fa
     trivial = exp["lineno"] == 1 and exp["C"] == 1
     light_all = light
     plain_fname = fname
+    exp0, text0 = exp, text
+    pre_fname = None
+    if any(p == "lookup:pre" for p in paths):
+        e_.n += 1
+        pre_fname = os.path.join(e_.dir, "t%d.html" % e_.n)
+        with open(pre_fname, "wb") as f:
+            f.write((PRE_RAW + "\n" + text).encode(exp.get("enc", "utf-8")))
     for p in paths:
         fname = e_.nestfile if p.startswith("nest:") else plain_fname
         light = light_all or p in light_paths
@@ -850,8 +895,15 @@ def check_doc(text, exp, paths, html_paths, st, kind, outcome_extra=(), light=Fa
         st.traces += 1
         if not trivial:
             st.nontrivial += 1
-        obs = execute(text, p, fname, p in html_paths, st, light)
-        res = judge(text, exp, p, fname, obs)
+        if p.endswith(":pre"):
+            exp, text = _pre_shift(exp0), PRE_LINE + "\n" + text0
+            fname = pre_fname if p == "lookup:pre" else None
+            obs = execute(text0, p, fname, False, st, True)
+            res = judge(text, exp, "string" if p == "string:pre" else p, fname, obs)
+        else:
+            exp, text = exp0, text0
+            obs = execute(text, p, fname, p in html_paths, st, light)
+            res = judge(text, exp, p, fname, obs)
         st.oracles["class"] += 1
         if obs["cls"] in MAKO_ERRORS:
             st.oracles["filename+source"] += 1
@@ -863,12 +915,12 @@ def check_doc(text, exp, paths, html_paths, st, kind, outcome_extra=(), light=Fa
             if "html" in obs:
                 st.oracles["html_error_template"] += 1
         st.outcomes[(kind, exp["group"], obs["cls"], exp["lineno"] - exp["L"], "bad" if res else "ok") + tuple(outcome_extra)] += 1
-        seen[p] = (obs["cls"], obs.get("lineno"), obs.get("pos"))
+        seen[p] = (obs["cls"], obs.get("lineno") - (1 if p.endswith(":pre") and isinstance(obs.get("lineno"), int) else 0) if obs.get("lineno") is not None else None, obs.get("pos"))
         for oracle, detail, msg, expected, observed in res:
             st.violation(
                 sig_of(oracle, exp["family"], detail),
-                {"kind": kind, "text": text, "paths": [p], "html": p in html_paths, "light": light, "exp": exp},
-                oracle + ": " + msg,
+                {"kind": kind, "text": text0, "paths": [p], "html": p in html_paths, "light": light, "exp": exp0},
+                oracle + ": " + msg + (" (behind a preprocessor that makes the text longer)" if p.endswith(":pre") else ""),
                 expected=expected,
                 observed=observed,
             )
@@ -882,11 +934,12 @@ def check_doc(text, exp, paths, html_paths, st, kind, outcome_extra=(), light=Fa
                 expected="identical (class, lineno, pos) on all paths",
                 observed={k: list(v) for k, v in seen.items()},
             )
-    if plain_fname:
-        try:
-            os.unlink(plain_fname)
-        except OSError:
-            pass
+    for fn_ in (plain_fname, pre_fname):
+        if fn_:
+            try:
+                os.unlink(fn_)
+            except OSError:
+                pass
 
 
 def check_base(text, st, kind, label):
@@ -970,6 +1023,8 @@ def run_a(tier, seed, F, sh, ns, st):
                     paths = PATHS + NEST_PATHS
                     if html_paths:
                         html_paths = tuple(html_paths) + (("nest:include",) if quick else ("nest:include", "nest:inherit:mod"))
+                if layout[2] in PRETEXT and layout[1] == "\n" and not (quick and f["variant"]):
+                    paths = tuple(paths) + (PRE_PATHS[:1] if quick else PRE_PATHS)
                 check_doc(text, exp, paths, html_paths, st, "A", light_paths=("lookup", "moddir") if quick else ())
                 if len(seen) % 499 == 1:
                     st.sample({"space": "A", "fault": f["name"], "layout": list(layout), "text": text, "expect": {"lineno": exp["lineno"], "pos": exp["cols"]}})
